@@ -33,8 +33,20 @@ def aborted_call(rng):
         pass
 
 
+def crc_or_code(data):
+    try:
+        c = mod.crc7(data)
+        return c if type(c) is int else -2
+    except Exception:
+        return -1
+
+
 def trace(tid, msg, as_bytes=True, rng=None):
     steps = []
+    if tid % 4 == 0:
+        # the empty message, in one of its guises
+        empty = [b"", [], (), bytearray(), memoryview(b"")][tid // 4 % 5]
+        steps.append({"in": {"e": "empty"}, "out": {"c": crc_or_code(empty)}})
     for i in range(len(msg)):
         prefix = msg[:i + 1]
         data = bytes(prefix) if as_bytes else list(prefix)
